@@ -121,10 +121,17 @@ Definition gate_fires (q : cquirks) (abs : list string) (pats : list string) (p 
 Definition linted (q : cquirks) (abs : list string) (pats : list string) (p : list string) : bool :=
   negb (existsb (gate_fires q abs pats p) lint_gates).
 
-(* lint_directory(root / rel, recursive) : the project-relative paths of the files that reach the rules *)
+(* lint_directory(root / rel, recursive) : the project-relative paths of the files that reach the rules.
+   seq_collect_recursive / par_collect_recursive (Gen) = the `recursive` value the entry point hands to _collect_files_fast *)
 Definition run_dir (q : cquirks) (recursive : bool) (abs rel : list string) (t : tree) (s : sources) : list (list string) :=
   let pats := load_patterns q s in
-  filter (linted q abs pats) (walk recursive rel t).
+  filter (linted q abs pats) (walk (seq_collect_recursive recursive) rel t).
+
+(* lint_directory_parallel(root / rel, recursive): collect, then lint_file per collected path (in a worker that builds
+   its own Orchestrator for the same root and config, or in the sequential fallback below 2 x workers files) *)
+Definition run_dir_par (q : cquirks) (recursive : bool) (abs rel : list string) (t : tree) (s : sources) : list (list string) :=
+  let pats := load_patterns q s in
+  filter (linted q abs pats) (walk (par_collect_recursive recursive) rel t).
 
 (* lint_files(paths) *)
 Definition run_files (q : cquirks) (abs : list string) (s : sources) (ps : list (list string)) : list (list string) :=
